@@ -154,3 +154,13 @@ Example C26_rejects_nonvacuous :
   run_bundle s d [AAdd 0 [None] None (Some [LList [1; -5]])] = PyErr PyValueError /\
   run_bundle s d [AUpdate 0 [-5] None None] = PyErr PyAssertionError.
 Proof. repeat split; vm_compute; reflexivity. Qed.
+
+(* since fix 060dc6b an update that names a row twice keeps the last occurrence only: the earlier value (here an
+   unresolved -8) is overridden inside the action and is neither stored nor checked *)
+Example C26_repeated_row_keeps_last :
+  let s := [(0, (0, 0)); (1, (0, 2)); (2, (2, 1))] in
+  let d := [(0, []); (1, []); (2, [mkrow 1 (RInt 0) LNone; mkrow 6 (RInt 0) LNone])] in
+  run_bundle s d [AUpdate 2 [1; 1] (Some [RInt (-8); RInt 6]) None]
+  = PyOk ([(0, []); (1, []); (2, [mkrow 1 (RInt 6) LNone; mkrow 6 (RInt 0) LNone])], [RetNone]) /\
+  run_bundle s d [AUpdate 2 [1; 1] (Some [RInt 6; RInt (-8)]) None] = PyErr PyValueError.
+Proof. split; vm_compute; reflexivity. Qed.
